@@ -7,11 +7,12 @@
 //! stdin, one case per line:
 //!   (hist W (mods (mod "a/b" "<src>")..) "<line 1>" "<line 2>" ..)
 //!     -> (session L1 L2 ..)   with, per line,
-//!        L = (line <outcome> (binds (x i)..) (aliases a..) (vars (x <val>)..) (locals <val>..)
+//!        L = (line <outcome> (binds (x i)..) (aliases a..) (types (x "ty")..) (vars (x <val>)..) (locals <val>..)
 //!                  (last <val>|-) (lrtnil true|false) (rc ok|"msg") (stack n) (quiet true|false))
 //!        outcome = (ok <val>) | (none) | (err Class) | (parse-error) | (compile-error Kind)
 //!                | (env-error ..) | (timeout) | (panic "file:line")
 //!        binds   = Repl's binding map (hook `Repl::verif_bindings`), variables only, sorted by name
+//!        types   = `get_variables()`: (x "<formatted static type>") in index order
 //!        vars    = `get_variables()` order, each value fetched with `request_variable`
 //!        locals  = the REPL process's whole locals vector read through `Worker::verif_executor`
 //!        last    = the process's stored result (what the next `resume` pushes)
@@ -212,6 +213,11 @@ fn dump_state(sim: &mut Sim, repl: &mut Repl<TestEffect>, pid: ProcessId, out: &
     }
     out.push(')');
     // variables through the public accessors
+    out.push_str(" (types");
+    for (name, ty) in repl.get_variables() {
+        out.push_str(&format!(" ({} \"{}\")", name, ty.replace('\\', "\\\\").replace('"', "\\\"").replace('\n', " ")));
+    }
+    out.push(')');
     out.push_str(" (vars");
     let names: Vec<String> = repl.get_variables().into_iter().map(|(n, _)| n).collect();
     for name in names {
